@@ -17,6 +17,27 @@ MODEL_CLASSES = [
 SWHID_CLASSES = ["CoreSWHID", "QualifiedSWHID", "ExtendedSWHID"]
 
 
+class LazyData:
+    """a loader for Content.get_data (compares and copies by value, so that twins stay comparable)"""
+
+    def __init__(self, data):
+        self.data = data
+        self.calls = 0
+
+    def __call__(self):
+        self.calls += 1
+        return self.data
+
+    def __eq__(self, other):
+        return isinstance(other, LazyData) and other.data == self.data
+
+    def __hash__(self):
+        return hash(self.data)
+
+    def __repr__(self):
+        return "LazyData(%r)" % (self.data[:8],)
+
+
 def cls_of(name):
     from swh.model import model, swhids
 
@@ -65,7 +86,7 @@ def gen_tstz(rng):
     return model.TimestampWithTimezone(timestamp=model.Timestamp(seconds=s, microseconds=us), offset_bytes=off)
 
 
-def gen_kwargs(rng, name):
+def gen_kwargs(rng, name, lazy=False):
     from swh.model import model, swhids
 
     if name == "Person":
@@ -142,8 +163,13 @@ def gen_kwargs(rng, name):
         data = rb(rng, rng.choice([0, 3, 50]))
         c = model.Content.from_data(data)
         kw = {"sha1": c.sha1, "sha1_git": c.sha1_git, "sha256": c.sha256, "blake2s256": c.blake2s256, "length": c.length, "status": rng.choice(["visible", "hidden"])}
-        if rng.random() < 0.5:
+        r = rng.random()
+        if r < 0.4:
             kw["data"] = data
+        elif r < 0.7 and lazy:
+            # loaded on demand, as contents read from disk are (only where asked for: the dictionary
+            # form of such an object carries the loaded data, so it does not round-trip to an equal object)
+            kw["get_data"] = LazyData(data)
         if rng.random() < 0.4:
             kw["ctime"] = gen_dt(rng)
         return kw
